@@ -321,4 +321,649 @@ Section Proofs.
         * cbn in Hlen. lia.
         * intros j Hj. replace (S i + j) with (i + S j) by lia. apply (Hgap (S j)). cbn. lia.
   Qed.
+
+  (* ---------- invariants ---------- *)
+  Notation skip_inv := (skip_inv T cmp).
+  Notation insert := (insert T cmp).
+  Notation delete_element := (delete_element T cmp).
+  Notation as_slice := (as_slice T).
+
+  Lemma inv_h1 : forall s : sl, skip_inv s -> Forall (fun n : node => 1 <= nht n) (nodes s).
+  Proof.
+    intros s (_ & _ & _ & _ & _ & Hh & _). eapply Forall_impl; [|exact Hh]. cbn. intros a Ha. lia.
+  Qed.
+
+  Lemma empty_inv : skip_inv empty.
+  Proof.
+    unfold SkipModel.skip_inv, level_exact. cbn.
+    repeat split; auto; try constructor; try lia.
+  Qed.
+
+  Lemma random_level_range : forall r, 1 <= random_level r <= MaxLevel.
+  Proof. intros r. unfold random_level, MaxLevel. lia. Qed.
+
+  Lemma random_level_onto : forall h, 1 <= h <= MaxLevel -> random_level (h - 1) = h.
+  Proof. intros h Hh. unfold random_level, MaxLevel in *. lia. Qed.
+
+  Lemma sorted_insert : forall v n sq, nval n = v -> StronglySorted le_nd sq ->
+    StronglySorted le_nd (firstn (lt_count v sq) sq ++ n :: skipn (lt_count v sq) sq).
+  Proof.
+    intros v n sq Hv Hs. induction Hs as [|a l Hs IH Hall]; cbn [lt_count].
+    - cbn. constructor; constructor.
+    - destruct (ltb v a) eqn:Ha.
+      + cbn [firstn skipn app]. constructor; auto.
+        apply Forall_insert_mid. split; auto.
+        unfold SkipModel.ltb in Ha. rewrite Hv. apply Z.ltb_lt in Ha. lia.
+      + cbn [firstn skipn app]. unfold SkipModel.ltb in Ha. apply Z.ltb_ge in Ha.
+        assert (Hva : (cmp v (nval a) <= 0)%Z) by (apply cmp_flip_le; lia).
+        constructor; [constructor; auto|].
+        constructor; [rewrite Hv; auto|].
+        rewrite Forall_forall in *. intros x Hx. rewrite Hv. eapply cmp_trans; eauto.
+  Qed.
+
+  Lemma map_insert : forall v n sq, nval n = v ->
+    map nval (firstn (lt_count v sq) sq ++ n :: skipn (lt_count v sq) sq) = ms_insert T cmp v (map nval sq).
+  Proof.
+    intros v n sq Hv. induction sq as [|a l IH]; cbn [lt_count map ms_insert].
+    - cbn. rewrite Hv. reflexivity.
+    - change (cmp (nval a) v <? 0)%Z with (ltb v a). destruct (ltb v a).
+      + cbn [firstn skipn app map]. f_equal. exact IH.
+      + cbn [firstn skipn app map]. rewrite Hv. reflexivity.
+  Qed.
+
+  Lemma insert_nodes : forall v lvl s, skip_inv s ->
+    nodes (insert v lvl s) =
+      firstn (lt_count v (nodes s)) (nodes s) ++
+      {| nid := nextid s; nval := v; nht := lvl |} :: skipn (lt_count v (nodes s)) (nodes s).
+  Proof.
+    intros v lvl s Hinv. pose proof (inv_h1 s Hinv) as Hh1.
+    destruct Hinv as (Hs & _ & _ & _ & _ & _ & (Hl1 & _) & _).
+    destruct (traverse_spec (nodes s) v (level s) Hs Hh1) as (Hlen & _ & Hu0).
+    unfold SkipModel.insert. cbn [nodes].
+    assert (Hp0 : upd (traverse (nodes s) v (level s) ++ repeat 0 (lvl - level s)) 0 = lt_count v (nodes s)).
+    { unfold upd. rewrite app_nth1 by lia. apply Hu0; auto. }
+    rewrite Hp0. reflexivity.
+  Qed.
+
+  Lemma insert_inv : forall v lvl s, skip_inv s -> 1 <= lvl <= MaxLevel -> skip_inv (insert v lvl s).
+  Proof.
+    intros v lvl s Hinv Hlvl. pose proof (inv_h1 s Hinv) as Hh1.
+    pose proof (insert_nodes v lvl s Hinv) as Hnodes.
+    destruct Hinv as (Hs & Hnd & Hids & Hnx & Hsz & Hh & (Hl1 & Hle & Hex) & Hrep).
+    destruct (traverse_spec (nodes s) v (level s) Hs Hh1) as (Hlen & Hgap & Hu0).
+    set (c0 := lt_count v (nodes s)) in *.
+    set (n := {| nid := nextid s; nval := v; nht := lvl |}) in *.
+    pose proof (perm_insert_mid c0 (nodes s) n) as Hperm.
+    unfold SkipModel.skip_inv. rewrite Hnodes.
+    assert (A1 : StronglySorted le_nd (firstn c0 (nodes s) ++ n :: skipn c0 (nodes s))).
+    { apply sorted_insert; auto. }
+    assert (A2 : NoDup (map nid (firstn c0 (nodes s) ++ n :: skipn c0 (nodes s)))).
+    { eapply Permutation_NoDup; [symmetry; apply Permutation_map; exact Hperm|].
+      cbn [map]. constructor; auto. intros Hin. apply in_map_iff in Hin. destruct Hin as [x [Hx Hin]].
+      rewrite Forall_forall in Hids. specialize (Hids x Hin). cbn in Hx. lia. }
+    assert (A3 : Forall (fun x : node => 1 <= nid x < nextid (insert v lvl s)) (firstn c0 (nodes s) ++ n :: skipn c0 (nodes s))).
+    { apply Forall_insert_mid. cbn. split; [lia|]. eapply Forall_impl; [|exact Hids]. cbn. intros a Ha. lia. }
+    assert (A4 : 1 <= nextid (insert v lvl s)) by (cbn; lia).
+    assert (A5 : size (insert v lvl s) = Z.of_nat (length (firstn c0 (nodes s) ++ n :: skipn c0 (nodes s)))).
+    { rewrite (Permutation_length Hperm). cbn [length SkipModel.insert size]. lia. }
+    assert (A6 : Forall (fun x : node => 1 <= nht x <= MaxLevel) (firstn c0 (nodes s) ++ n :: skipn c0 (nodes s))).
+    { apply Forall_insert_mid. split; auto. }
+    assert (A8 : rep (insert v lvl s) = true).
+    { unfold SkipModel.insert. cbn [rep]. rewrite Hrep. cbn [andb].
+      apply forallb_forall. intros i Hi. apply in_seq in Hi. unfold gap_ok.
+      destruct (Nat.lt_ge_cases i (level s)) as [Hlt|Hge].
+      - assert (Hui : upd (traverse (nodes s) v (level s) ++ repeat 0 (lvl - level s)) i = upd (traverse (nodes s) v (level s)) i).
+        { unfold upd. rewrite app_nth1 by lia. reflexivity. }
+        assert (Hu0' : upd (traverse (nodes s) v (level s) ++ repeat 0 (lvl - level s)) 0 = c0).
+        { unfold upd. rewrite app_nth1 by lia. apply Hu0; auto. }
+        rewrite Hui, Hu0'. pose proof (fwd_gapfree_ge _ _ _ _ (Hgap i Hlt)) as Hf.
+        destruct (fwd i (nodes s) (upd (traverse (nodes s) v (level s)) i)) as [r|]; auto.
+        apply Nat.leb_le. exact Hf.
+      - assert (Hui : upd (traverse (nodes s) v (level s) ++ repeat 0 (lvl - level s)) i = 0).
+        { unfold upd. rewrite app_nth2 by lia. apply nth_repeat0. }
+        rewrite Hui. pose proof (fwd_spec i (nodes s) 0) as Hf.
+        destruct (fwd i (nodes s) 0) as [r|]; auto.
+        destruct Hf as [_ [x [Hx [Hon _]]]]. apply nth_error_In in Hx.
+        rewrite Forall_forall in Hle. specialize (Hle x Hx).
+        unfold SkipModel.on_level in Hon. apply Nat.ltb_lt in Hon. lia. }
+    assert (A7 : level_exact T (insert v lvl s)).
+    { unfold level_exact. rewrite Hnodes. cbn [level SkipModel.insert]. split; [lia|]. split.
+      - apply Forall_insert_mid. split; [cbn; lia|]. eapply Forall_impl; [|exact Hle]. cbn. intros a Ha. lia.
+      - destruct (Nat.max_spec (level s) lvl) as [[Hlt Hmax]|[Hge Hmax]]; rewrite Hmax.
+        + right. exists n. split; [apply in_or_app; right; left; reflexivity|reflexivity].
+        + destruct Hex as [H1|[x [Hx Hxh]]]; [left; lia|]. right. exists x. split; auto.
+          eapply Permutation_in; [symmetry; exact Hperm|]. right. exact Hx. }
+    exact (conj A1 (conj A2 (conj A3 (conj A4 (conj A5 (conj A6 (conj A7 A8))))))).
+  Qed.
+
+  Lemma trim_spec : forall (sq : list node) lv, 1 <= lv -> Forall (fun n : node => nht n <= lv) sq ->
+    1 <= trim T sq lv /\ Forall (fun n : node => nht n <= trim T sq lv) sq /\
+    (trim T sq lv = 1 \/ exists n, In n sq /\ nht n = trim T sq lv).
+  Proof.
+    intros sq lv. induction lv as [|j IH]; intros H1 Hall; [lia|].
+    cbn [SkipModel.trim]. destruct (Nat.ltb_spec 1 (S j)) as [Hlt|Hge].
+    - pose proof (fwd_spec j sq 0) as Hf. destruct (fwd j sq 0) as [r|].
+      + split; [lia|]. split; auto. right.
+        destruct Hf as [_ [x [Hx [Hon _]]]]. exists x. apply nth_error_In in Hx. split; auto.
+        rewrite Forall_forall in Hall. specialize (Hall x Hx).
+        unfold SkipModel.on_level in Hon. apply Nat.ltb_lt in Hon. lia.
+      + apply IH; [lia|]. apply Forall_forall. intros x Hx.
+        destruct (In_nth_error _ _ Hx) as [k Hk].
+        specialize (Hf k x (Nat.le_0_l _) Hk). unfold SkipModel.on_level in Hf.
+        apply Nat.ltb_ge in Hf. exact Hf.
+    - split; [lia|]. split; auto. left. lia.
+  Qed.
+
+  Lemma delete_simpl : forall v s, skip_inv s ->
+    delete_element v s =
+    match nth_error (nodes s) (lt_count v (nodes s)) with
+    | Some nd =>
+      if (cmp (nval nd) v =? 0)%Z then
+        ({| nodes := remove_at (nodes s) (lt_count v (nodes s));
+            level := trim T (remove_at (nodes s) (lt_count v (nodes s))) (level s);
+            size := (size s - 1)%Z; nextid := nextid s; rep := true |}, true)
+      else (s, true)
+    | None => (s, true)
+    end.
+  Proof.
+    intros v s Hinv. pose proof (inv_h1 s Hinv) as Hh1.
+    destruct Hinv as (Hs & Hnd & Hids & Hnx & Hsz & Hh & (Hl1 & Hle & Hex) & Hrep).
+    destruct (traverse_spec (nodes s) v (level s) Hs Hh1) as (Hlen & Hgap & Hu0).
+    unfold SkipModel.delete_element. rewrite (Hu0 Hl1). rewrite (fwd0 _ _ Hh1).
+    set (c0 := lt_count v (nodes s)) in *.
+    destruct (Nat.ltb_spec c0 (length (nodes s))) as [Hlt|Hge].
+    - destruct (nth_error (nodes s) c0) as [nd|] eqn:Hn; [|reflexivity].
+      destruct (cmp (nval nd) v =? 0)%Z; cbn [negb]; [|reflexivity].
+      rewrite Hrep. cbn [andb].
+      rewrite (unlink_count_spec (nodes s) c0 nd Hn).
+      + rewrite Nat.sub_0_r, Nat.eqb_refl. reflexivity.
+      + lia.
+      + rewrite Hlen. cbn. rewrite Forall_forall in Hle. apply Hle. eapply nth_error_In; eauto.
+      + intros j Hj. cbn [plus]. apply Hgap. lia.
+    - assert (Hn : nth_error (nodes s) c0 = None) by (apply nth_error_None; exact Hge).
+      rewrite Hn. reflexivity.
+  Qed.
+
+  Lemma delete_inv : forall v s, skip_inv s ->
+    skip_inv (fst (delete_element v s)) /\ snd (delete_element v s) = true.
+  Proof.
+    intros v s Hinv. rewrite (delete_simpl v s Hinv).
+    set (c0 := lt_count v (nodes s)).
+    destruct (nth_error (nodes s) c0) as [nd|] eqn:Hn; [|split; auto].
+    destruct (cmp (nval nd) v =? 0)%Z; [|split; auto].
+    split; [|reflexivity]. cbn [fst].
+    destruct Hinv as (Hs & Hnd & Hids & Hnx & Hsz & Hh & (Hl1 & Hle & Hex) & Hrep).
+    assert (Hlt : c0 < length (nodes s)) by (apply nth_error_Some; congruence).
+    unfold SkipModel.skip_inv, level_exact. cbn [nodes level size nextid rep].
+    split; [apply remove_at_sorted; exact Hs|].
+    split; [apply remove_at_nodup; exact Hnd|].
+    split; [apply Forall_forall; intros x Hx; apply remove_at_incl in Hx; rewrite Forall_forall in Hids; auto|].
+    split; [exact Hnx|].
+    split; [pose proof (remove_at_length (nodes s) c0 Hlt); lia|].
+    split; [apply Forall_forall; intros x Hx; apply remove_at_incl in Hx; rewrite Forall_forall in Hh; auto|].
+    split; [|reflexivity].
+    apply trim_spec; auto.
+    apply Forall_forall. intros x Hx. apply remove_at_incl in Hx. rewrite Forall_forall in Hle. auto.
+  Qed.
+
+  (* ---------- the observables, in terms of the level-0 sequence ---------- *)
+  Lemma chain0_all : forall sq : list node, Forall (fun n : node => 1 <= nht n) sq -> filter (on_level 0) sq = sq.
+  Proof.
+    intros sq Hh. induction Hh as [|a l Ha Hh IH]; cbn [filter]; auto.
+    assert (Hon : on_level 0 a = true) by (unfold SkipModel.on_level; apply Nat.ltb_lt; lia).
+    rewrite Hon. f_equal. exact IH.
+  Qed.
+
+  Lemma as_slice_nodes : forall s : sl, skip_inv s -> as_slice s = map nval (nodes s).
+  Proof.
+    intros s Hinv. unfold SkipModel.as_slice, chain. rewrite (chain0_all _ (inv_h1 s Hinv)). reflexivity.
+  Qed.
+
+  Lemma insert_slice : forall v lvl s, skip_inv s -> 1 <= lvl <= MaxLevel ->
+    as_slice (insert v lvl s) = ms_insert T cmp v (as_slice s).
+  Proof.
+    intros v lvl s Hinv Hlvl.
+    rewrite (as_slice_nodes _ (insert_inv v lvl s Hinv Hlvl)), (as_slice_nodes s Hinv).
+    rewrite (insert_nodes v lvl s Hinv). apply map_insert. reflexivity.
+  Qed.
+
+  Lemma map_delete : forall v (sq : list node),
+    map nval (match nth_error sq (lt_count v sq) with
+              | Some nd => if (cmp (nval nd) v =? 0)%Z then remove_at sq (lt_count v sq) else sq
+              | None => sq end) = ms_delete T cmp v (map nval sq).
+  Proof.
+    intros v sq. induction sq as [|a l IH]; cbn [lt_count map ms_delete]; [reflexivity|].
+    change (cmp (nval a) v <? 0)%Z with (ltb v a). destruct (ltb v a).
+    - cbn [nth_error]. rewrite <- IH.
+      destruct (nth_error l (lt_count v l)) as [nd|]; [|reflexivity].
+      destruct (cmp (nval nd) v =? 0)%Z; reflexivity.
+    - cbn [nth_error]. destruct (cmp (nval a) v =? 0)%Z; reflexivity.
+  Qed.
+
+  Lemma delete_slice : forall v s, skip_inv s ->
+    as_slice (fst (delete_element v s)) = ms_delete T cmp v (as_slice s).
+  Proof.
+    intros v s Hinv. rewrite (as_slice_nodes _ (proj1 (delete_inv v s Hinv))), (as_slice_nodes s Hinv).
+    rewrite <- map_delete. rewrite (delete_simpl v s Hinv).
+    destruct (nth_error (nodes s) (lt_count v (nodes s))) as [nd|]; [|reflexivity].
+    destruct (cmp (nval nd) v =? 0)%Z; reflexivity.
+  Qed.
+
+  Lemma search_sorted : forall v (sq : list node), StronglySorted le_nd sq ->
+    ms_search T cmp v (map nval sq) =
+    match nth_error sq (lt_count v sq) with Some nd => (cmp (nval nd) v =? 0)%Z | None => false end.
+  Proof.
+    intros v sq Hs. unfold ms_search. induction Hs as [|a l Hs IH Hall]; cbn [lt_count map existsb]; [reflexivity|].
+    destruct (ltb v a) eqn:Ha; unfold SkipModel.ltb in Ha.
+    - cbn [nth_error]. rewrite <- IH. apply Z.ltb_lt in Ha.
+      destruct (Z.eqb_spec (cmp (nval a) v) 0); [lia|reflexivity].
+    - cbn [nth_error]. apply Z.ltb_ge in Ha.
+      destruct (Z.eqb_spec (cmp (nval a) v) 0) as [He|Hne]; [reflexivity|]. cbn [orb].
+      destruct (existsb (fun x : T => (cmp x v =? 0)%Z) (map nval l)) eqn:Hex; [|reflexivity].
+      apply existsb_exists in Hex. destruct Hex as [x [Hx Hxv]]. apply in_map_iff in Hx.
+      destruct Hx as [n [Hnx Hn]]. subst x. rewrite Forall_forall in Hall. specialize (Hall n Hn).
+      apply Z.eqb_eq in Hxv. assert (Hle : (cmp (nval n) v <= 0)%Z) by lia.
+      pose proof (cmp_trans _ _ _ Hall Hle). lia.
+  Qed.
+
+  Lemma search_spec : forall v s, skip_inv s -> search T cmp v s = ms_search T cmp v (as_slice s).
+  Proof.
+    intros v s Hinv. pose proof (inv_h1 s Hinv) as Hh1. rewrite (as_slice_nodes s Hinv).
+    destruct Hinv as (Hs & _ & _ & _ & _ & _ & (Hl1 & _) & _).
+    destruct (traverse_spec (nodes s) v (level s) Hs Hh1) as (_ & _ & Hu0).
+    unfold SkipModel.search. rewrite (Hu0 Hl1), (fwd0 _ _ Hh1), (search_sorted v _ Hs).
+    destruct (Nat.ltb_spec (lt_count v (nodes s)) (length (nodes s))) as [Hlt|Hge]; [reflexivity|].
+    assert (Hn : nth_error (nodes s) (lt_count v (nodes s)) = None) by (apply nth_error_None; exact Hge).
+    rewrite Hn. reflexivity.
+  Qed.
+
+  Lemma get_spec : forall i s, skip_inv s -> get T i s = ms_get T i (as_slice s).
+  Proof.
+    intros i s Hinv. pose proof (inv_h1 s Hinv) as Hh1. rewrite (as_slice_nodes s Hinv).
+    destruct Hinv as (_ & _ & _ & _ & Hsz & _).
+    unfold SkipModel.get, ms_get, chain. rewrite (chain0_all _ Hh1), map_length, <- Hsz.
+    destruct ((i <? 0)%Z || (size s <=? i)%Z); [reflexivity|].
+    rewrite nth_error_map'. destruct (nth_error (nodes s) (Z.to_nat i)); reflexivity.
+  Qed.
+
+  Lemma peek_spec : forall s, skip_inv s -> peek T s = ms_peek T (as_slice s).
+  Proof.
+    intros s Hinv. pose proof (inv_h1 s Hinv) as Hh1. rewrite (as_slice_nodes s Hinv).
+    unfold SkipModel.peek. rewrite (fwd0 _ _ Hh1).
+    destruct (nodes s) as [|a l]; reflexivity.
+  Qed.
+
+  Lemma len_spec : forall s, skip_inv s -> len T s = Z.of_nat (length (as_slice s)).
+  Proof.
+    intros s Hinv. rewrite (as_slice_nodes s Hinv), map_length.
+    destruct Hinv as (_ & _ & _ & _ & Hsz & _). exact Hsz.
+  Qed.
+
+  (* ---------- refinement, step by step and for whole histories ---------- *)
+  Lemma step_refines : forall s o, skip_inv s ->
+    skip_inv (fst (step T cmp s o)) /\
+    as_slice (fst (step T cmp s o)) = fst (ms_step T cmp (as_slice s) o) /\
+    snd (step T cmp s o) = snd (ms_step T cmp (as_slice s) o).
+  Proof.
+    intros s o Hinv. destruct o as [v r|v|v|i| | |]; cbn [step ms_step fst snd].
+    - split; [apply insert_inv; auto; apply random_level_range|].
+      split; [apply insert_slice; auto; apply random_level_range|reflexivity].
+    - pose proof (delete_inv v s Hinv) as [Hi Ht]. pose proof (delete_slice v s Hinv) as Hsl.
+      destruct (delete_element v s) as [s' b]. cbn [fst snd] in *. subst b. auto.
+    - rewrite (search_spec v s Hinv). auto.
+    - rewrite (get_spec i s Hinv). auto.
+    - rewrite (peek_spec s Hinv). auto.
+    - rewrite (len_spec s Hinv). auto.
+    - auto.
+  Qed.
+
+  Lemma run_from_refines : forall ops s, skip_inv s ->
+    skip_inv (fst (run_from T cmp s ops)) /\
+    as_slice (fst (run_from T cmp s ops)) = fst (ms_run_from T cmp (as_slice s) ops) /\
+    snd (run_from T cmp s ops) = snd (ms_run_from T cmp (as_slice s) ops).
+  Proof.
+    intros ops. induction ops as [|o ops IH]; intros s Hinv; cbn [run_from ms_run_from].
+    - cbn. auto.
+    - destruct (step_refines s o Hinv) as (Hi & Hsl & Hr).
+      destruct (step T cmp s o) as [s1 r1]. destruct (ms_step T cmp (as_slice s) o) as [l1 r1'].
+      cbn [fst snd] in *. subst l1 r1'.
+      destruct (IH s1 Hi) as (Hi2 & Hsl2 & Hr2).
+      destruct (run_from T cmp s1 ops) as [s2 rs]. destruct (ms_run_from T cmp (as_slice s1) ops) as [l2 rs'].
+      cbn [fst snd] in *. subst. auto.
+  Qed.
+
+  Lemma run_refines : forall ops,
+    skip_inv (final T cmp ops) /\
+    as_slice (final T cmp ops) = fst (ms_run T cmp ops) /\
+    outs T cmp ops = snd (ms_run T cmp ops).
+  Proof.
+    intros ops. unfold final, outs, run, ms_run.
+    pose proof (run_from_refines ops empty empty_inv) as H.
+    assert (He : as_slice empty = []) by reflexivity. rewrite He in H. exact H.
+  Qed.
+
+  (* ---------- the specification is a sorted multiset ---------- *)
+  Notation sortedT := (sortedT T cmp).
+  Notation ms_insert := (ms_insert T cmp).
+  Notation ms_delete := (ms_delete T cmp).
+  Notation ms_search := (ms_search T cmp).
+
+  Lemma ms_insert_perm : forall v l, Permutation (ms_insert v l) (v :: l).
+  Proof.
+    intros v l. induction l as [|x t IH]; cbn [SkipModel.ms_insert]; [reflexivity|].
+    destruct (cmp x v <? 0)%Z; [|reflexivity].
+    rewrite IH. apply perm_swap.
+  Qed.
+
+  Lemma ms_insert_sorted : forall v l, sortedT l -> sortedT (ms_insert v l).
+  Proof.
+    intros v l Hs. induction Hs as [|a l Hs IH Hall]; cbn [SkipModel.ms_insert].
+    - constructor; constructor.
+    - destruct (Z.ltb_spec (cmp a v) 0) as [Hlt|Hge].
+      + constructor; [exact IH|]. apply Forall_forall. intros x Hx.
+        apply (Permutation_in _ (ms_insert_perm v l)) in Hx. destruct Hx as [<-|Hx]; [lia|].
+        rewrite Forall_forall in Hall. auto.
+      + assert (Hva : (cmp v a <= 0)%Z) by (apply cmp_flip_le; lia).
+        constructor; [constructor; auto|]. constructor; auto.
+        rewrite Forall_forall in *. intros x Hx. eapply cmp_trans; eauto.
+  Qed.
+
+  Lemma ms_delete_incl : forall v l x, In x (ms_delete v l) -> In x l.
+  Proof.
+    intros v l. induction l as [|a t IH]; intros x Hx; cbn [SkipModel.ms_delete] in Hx; auto.
+    destruct (cmp a v <? 0)%Z.
+    - destruct Hx as [<-|Hx]; [left; reflexivity|right; auto].
+    - destruct (cmp a v =? 0)%Z; [right; exact Hx|exact Hx].
+  Qed.
+
+  Lemma ms_delete_sorted : forall v l, sortedT l -> sortedT (ms_delete v l).
+  Proof.
+    intros v l Hs. induction Hs as [|a l Hs IH Hall]; cbn [SkipModel.ms_delete].
+    - constructor.
+    - destruct (cmp a v <? 0)%Z.
+      + constructor; [exact IH|]. apply Forall_forall. intros x Hx. apply ms_delete_incl in Hx.
+        rewrite Forall_forall in Hall. auto.
+      + destruct (cmp a v =? 0)%Z; [exact Hs|constructor; auto].
+  Qed.
+
+  Lemma ms_delete_present : forall v l, sortedT l -> (exists x, In x l /\ cmp x v = 0%Z) ->
+    exists x, In x l /\ cmp x v = 0%Z /\ Permutation l (x :: ms_delete v l).
+  Proof.
+    intros v l Hs. induction Hs as [|a l Hs IH Hall]; intros [x [Hx Hxv]]; [contradiction|].
+    cbn [SkipModel.ms_delete]. destruct (Z.ltb_spec (cmp a v) 0) as [Hlt|Hge].
+    - destruct Hx as [->|Hx]; [lia|].
+      destruct IH as [y [Hy [Hyv Hp]]]; [exists x; auto|].
+      exists y. split; [right; exact Hy|]. split; [exact Hyv|].
+      rewrite Hp at 1. apply perm_swap.
+    - destruct (Z.eqb_spec (cmp a v) 0) as [He|Hne].
+      + exists a. split; [left; reflexivity|]. split; [exact He|reflexivity].
+      + destruct Hx as [->|Hx]; [lia|]. rewrite Forall_forall in Hall. specialize (Hall x Hx).
+        assert (Hle : (cmp x v <= 0)%Z) by lia. pose proof (cmp_trans _ _ _ Hall Hle). lia.
+  Qed.
+
+  Lemma ms_delete_absent : forall v l, (forall x, In x l -> cmp x v <> 0%Z) -> ms_delete v l = l.
+  Proof.
+    intros v l. induction l as [|a t IH]; intros Hno; cbn [SkipModel.ms_delete]; [reflexivity|].
+    destruct (cmp a v <? 0)%Z.
+    - f_equal. apply IH. intros x Hx. apply Hno. right. exact Hx.
+    - destruct (Z.eqb_spec (cmp a v) 0) as [He|Hne]; [|reflexivity].
+      exfalso. apply (Hno a); [left; reflexivity|exact He].
+  Qed.
+
+  Lemma ms_search_iff : forall v l, ms_search v l = true <-> exists x, In x l /\ cmp x v = 0%Z.
+  Proof.
+    intros v l. unfold SkipModel.ms_search. rewrite existsb_exists.
+    split; intros [x [H1 H2]]; exists x; split; auto; apply Z.eqb_eq; auto.
+  Qed.
+
+  Lemma ms_get_in : forall i (l : list T), (0 <= i < Z.of_nat (length l))%Z ->
+    exists x, nth_error l (Z.to_nat i) = Some x /\ ms_get T i l = Ok x.
+  Proof.
+    intros i l Hi. unfold ms_get.
+    destruct (Z.ltb_spec i 0); [lia|]. destruct (Z.leb_spec (Z.of_nat (length l)) i); [lia|]. cbn [orb].
+    destruct (nth_error l (Z.to_nat i)) as [x|] eqn:Hn; [exists x; auto|].
+    apply nth_error_None in Hn. lia.
+  Qed.
+
+  Lemma ms_get_out : forall i (l : list T), ~ (0 <= i < Z.of_nat (length l))%Z -> ms_get T i l = Err EIndex.
+  Proof.
+    intros i l Hi. unfold ms_get.
+    destruct (Z.ltb_spec i 0); [reflexivity|]. destruct (Z.leb_spec (Z.of_nat (length l)) i); [reflexivity|]. lia.
+  Qed.
+
+  Lemma ms_step_ok : forall l o, sortedT l ->
+    sorted_multiset_step T cmp l o (fst (ms_step T cmp l o)) (snd (ms_step T cmp l o)).
+  Proof.
+    intros l o Hs. destruct o as [v r|v|v|i| | |]; cbn [ms_step fst snd sorted_multiset_step].
+    - split; [reflexivity|apply ms_insert_perm].
+    - split; [reflexivity|]. split; [apply ms_delete_present; exact Hs|apply ms_delete_absent].
+    - split; [reflexivity|]. exists (ms_search v l). split; [reflexivity|apply ms_search_iff].
+    - split; [reflexivity|]. split.
+      + intros Hi. destruct (ms_get_in i l Hi) as [x [Hn Hg]]. exists x. rewrite Hg. auto.
+      + intros Hi. rewrite (ms_get_out i l Hi). reflexivity.
+    - split; [reflexivity|]. destruct l as [|x t]; cbn [ms_peek]; [reflexivity|].
+      split; [reflexivity|]. intros y [<-|Hy]; [rewrite cmp_refl; lia|].
+      inversion Hs as [|a' l' Hs' Hall]; subst. rewrite Forall_forall in Hall. auto.
+    - auto.
+    - auto.
+  Qed.
+
+  Lemma ms_step_sorted : forall l o, sortedT l -> sortedT (fst (ms_step T cmp l o)).
+  Proof.
+    intros l o Hs. destruct o as [v r|v|v|i| | |]; cbn [ms_step fst]; auto.
+    - apply ms_insert_sorted; exact Hs.
+    - apply ms_delete_sorted; exact Hs.
+  Qed.
+
+  Lemma ms_run_from_sorted : forall ops l, sortedT l -> sortedT (fst (ms_run_from T cmp l ops)).
+  Proof.
+    intros ops. induction ops as [|o ops IH]; intros l Hs; cbn [ms_run_from]; [exact Hs|].
+    pose proof (ms_step_sorted l o Hs) as H1. destruct (ms_step T cmp l o) as [l1 r1]. cbn [fst] in H1.
+    specialize (IH l1 H1). destruct (ms_run_from T cmp l1 ops) as [l2 rs]. exact IH.
+  Qed.
+
+  Lemma ms_run_from_app : forall a b l,
+    fst (ms_run_from T cmp l (a ++ b)) = fst (ms_run_from T cmp (fst (ms_run_from T cmp l a)) b).
+  Proof.
+    intros a. induction a as [|o a IH]; intros b l; cbn [app ms_run_from]; [reflexivity|].
+    destruct (ms_step T cmp l o) as [l1 r1]. specialize (IH b l1).
+    destruct (ms_run_from T cmp l1 (a ++ b)) as [l2 rs]. destruct (ms_run_from T cmp l1 a) as [l3 rs3].
+    cbn [fst] in *. exact IH.
+  Qed.
+
+  Lemma ms_run_snoc : forall ops o,
+    fst (ms_run T cmp (ops ++ [o])) = fst (ms_step T cmp (fst (ms_run T cmp ops)) o).
+  Proof.
+    intros ops o. unfold ms_run. rewrite ms_run_from_app. cbn [ms_run_from].
+    destruct (ms_step T cmp (fst (ms_run_from T cmp [] ops)) o) as [l1 r1]. reflexivity.
+  Qed.
+
+  Lemma ms_contents : forall ops, contents_rel T cmp ops (fst (ms_run T cmp ops)).
+  Proof.
+    intros ops. induction ops as [|o ops IH] using rev_ind; [constructor|].
+    rewrite ms_run_snoc.
+    assert (Hs : sortedT (fst (ms_run T cmp ops))) by (apply ms_run_from_sorted; constructor).
+    set (l := fst (ms_run T cmp ops)) in *.
+    destruct o as [v r|v|v|i| | |]; cbn [ms_step fst]; try (constructor; exact IH).
+    - eapply CR_perm; [apply CR_insert; exact IH|]. symmetry. apply ms_insert_perm.
+    - destruct (ms_search v l) eqn:Hsr.
+      + apply ms_search_iff in Hsr. destruct (ms_delete_present v l Hs Hsr) as [x [Hx [Hxv Hp]]].
+        eapply CR_delete_present; eauto.
+      + assert (Hno : forall x, In x l -> cmp x v <> 0%Z).
+        { intros x Hx Hxv. assert (Ht : ms_search v l = true) by (apply ms_search_iff; exists x; auto). congruence. }
+        rewrite (ms_delete_absent v l Hno). apply CR_delete_absent; auto.
+  Qed.
+
+  Lemma ms_step_no_panic : forall l o, snd (ms_step T cmp l o) <> RVal Panic.
+  Proof.
+    intros l o. destruct o as [v r|v|v|i| | |]; cbn [ms_step snd]; try discriminate.
+    - unfold ms_get. destruct ((i <? 0)%Z || (Z.of_nat (length l) <=? i)%Z) eqn:E; [discriminate|].
+      destruct (nth_error l (Z.to_nat i)) as [x|] eqn:Hn; [discriminate|].
+      apply nth_error_None in Hn. lia.
+    - destruct l; cbn; discriminate.
+  Qed.
+
+  Lemma ms_run_from_no_panic : forall ops l, ~ In (RVal Panic) (snd (ms_run_from T cmp l ops)).
+  Proof.
+    intros ops. induction ops as [|o ops IH]; intros l; cbn [ms_run_from]; [cbn; tauto|].
+    pose proof (ms_step_no_panic l o) as H1. destruct (ms_step T cmp l o) as [l1 r1]. cbn [snd] in H1.
+    specialize (IH l1). destruct (ms_run_from T cmp l1 ops) as [l2 rs]. cbn [snd] in *.
+    intros [He|Hin]; [congruence|auto].
+  Qed.
+
+  (* ---------- the theorems of props/C05_skip.v ---------- *)
+  Lemma skip_inv_reachable_lemma : forall ops, skip_inv (final T cmp ops).
+  Proof. intros ops. exact (proj1 (run_refines ops)). Qed.
+
+  Lemma skip_outputs_eq_spec_lemma : forall ops,
+    outs T cmp ops = snd (ms_run T cmp ops) /\ as_slice (final T cmp ops) = fst (ms_run T cmp ops).
+  Proof. intros ops. destruct (run_refines ops) as (_ & H1 & H2). auto. Qed.
+
+  Lemma skip_sorted_reachable_lemma : forall ops, sortedT (as_slice (final T cmp ops)).
+  Proof.
+    intros ops. destruct (run_refines ops) as (_ & H1 & _). rewrite H1.
+    apply ms_run_from_sorted. constructor.
+  Qed.
+
+  Lemma skip_step_lemma : forall ops o,
+    let s := final T cmp ops in
+    let s' := fst (step T cmp s o) in
+    sortedT (as_slice s) /\ sortedT (as_slice s') /\
+    sorted_multiset_step T cmp (as_slice s) o (as_slice s') (snd (step T cmp s o)).
+  Proof.
+    intros ops o. cbv zeta. pose proof (skip_sorted_reachable_lemma ops) as Hs.
+    destruct (step_refines (final T cmp ops) o (skip_inv_reachable_lemma ops)) as (_ & H1 & H2).
+    rewrite H1, H2. split; [exact Hs|]. split; [apply ms_step_sorted; exact Hs|apply ms_step_ok; exact Hs].
+  Qed.
+
+  Lemma skip_contents_lemma : forall ops, contents_rel T cmp ops (as_slice (final T cmp ops)).
+  Proof. intros ops. destruct (run_refines ops) as (_ & H1 & _). rewrite H1. apply ms_contents. Qed.
+
+  Lemma skip_never_panics_lemma : forall ops, ~ In (RVal Panic) (outs T cmp ops).
+  Proof. intros ops. destruct (run_refines ops) as (_ & _ & H2). rewrite H2. apply ms_run_from_no_panic. Qed.
+
+  Lemma from_slice_run_lemma : forall l,
+    from_slice T cmp l = final T cmp (map (fun vr => OInsert (fst vr) (snd vr)) l).
+  Proof.
+    intros l. unfold from_slice, final, run. generalize (@empty T).
+    induction l as [|[v r] l IH]; intros s; cbn [fold_left map run_from]; [reflexivity|].
+    cbn [step fst snd]. rewrite IH.
+    destruct (run_from T cmp (insert v (random_level r) s) (map (fun vr => OInsert (fst vr) (snd vr)) l)) as [s2 rs].
+    reflexivity.
+  Qed.
+
+  (* key lemma 12.4 for every reachable state: on every level below [level] the predecessor found
+     by traverse has no node of that level between itself and the first node >= v, and
+     update[i].Forward[i] is that node exactly on the levels of its tower *)
+  Lemma skip_traverse_lemma : forall ops v,
+    let s := final T cmp ops in
+    let u := traverse (nodes s) v (level s) in
+    let c0 := lt_count v (nodes s) in
+    length u = level s /\ upd u 0 = c0 /\
+    (forall k n, nth_error (nodes s) k = Some n -> ltb v n = (k <? c0)) /\
+    (forall i nd, i < level s -> nth_error (nodes s) c0 = Some nd ->
+       (fwd i (nodes s) (upd u i) = Some c0 <-> i < nht nd)).
+  Proof.
+    intros ops v. cbv zeta. pose proof (skip_inv_reachable_lemma ops) as Hinv.
+    set (s := final T cmp ops) in *. pose proof (inv_h1 s Hinv) as Hh1.
+    destruct Hinv as (Hs & _ & _ & _ & _ & _ & (Hl1 & _) & _).
+    destruct (traverse_spec (nodes s) v (level s) Hs Hh1) as (Hlen & Hgap & Hu0).
+    split; [exact Hlen|]. split; [apply Hu0; exact Hl1|]. split; [apply sorted_part; exact Hs|].
+    intros i nd Hi Hnd. split.
+    - intros Hf. pose proof (fwd_spec i (nodes s) (upd (traverse (nodes s) v (level s)) i)) as Hsp.
+      rewrite Hf in Hsp. destruct Hsp as [_ [n [Hn [Hon _]]]]. rewrite Hnd in Hn. injection Hn as <-.
+      unfold SkipModel.on_level in Hon. apply Nat.ltb_lt in Hon. exact Hon.
+    - intros Hh. eapply fwd_gapfree_on; [apply Hgap; exact Hi|exact Hnd|].
+      unfold SkipModel.on_level. apply Nat.ltb_lt. exact Hh.
+  Qed.
 End Proofs.
+
+(* ---------- closed forms: the comparator laws as one premise ---------- *)
+Section Closed.
+  Variable T : Type.
+  Variable cmp : T -> T -> Z.
+  Hypothesis Hcmp : cmp_total_preorder T cmp.
+
+  Lemma skip_inv_reachable_tp : forall ops, skip_inv T cmp (final T cmp ops).
+  Proof. destruct Hcmp as [Ha Ht]. intros ops. eapply skip_inv_reachable_lemma; eassumption. Qed.
+
+  Lemma skip_step_tp : forall ops o,
+    let s := final T cmp ops in
+    let s' := fst (step T cmp s o) in
+    sortedT T cmp (as_slice T s) /\ sortedT T cmp (as_slice T s') /\
+    sorted_multiset_step T cmp (as_slice T s) o (as_slice T s') (snd (step T cmp s o)).
+  Proof. destruct Hcmp as [Ha Ht]. intros ops o. eapply skip_step_lemma; eassumption. Qed.
+
+  Lemma skip_outputs_eq_spec_tp : forall ops,
+    outs T cmp ops = snd (ms_run T cmp ops) /\ as_slice T (final T cmp ops) = fst (ms_run T cmp ops).
+  Proof. destruct Hcmp as [Ha Ht]. intros ops. eapply skip_outputs_eq_spec_lemma; eassumption. Qed.
+
+  Lemma skip_contents_tp : forall ops,
+    contents_rel T cmp ops (as_slice T (final T cmp ops)) /\ sortedT T cmp (as_slice T (final T cmp ops)).
+  Proof.
+    destruct Hcmp as [Ha Ht]. intros ops. split.
+    - eapply skip_contents_lemma; eassumption.
+    - eapply skip_sorted_reachable_lemma; eassumption.
+  Qed.
+
+  Lemma skip_never_panics_tp : forall ops, ~ In (RVal Panic) (outs T cmp ops).
+  Proof. destruct Hcmp as [Ha Ht]. intros ops. eapply skip_never_panics_lemma; eassumption. Qed.
+
+  Lemma skip_from_slice_tp : forall l,
+    let s := from_slice T cmp l in
+    s = final T cmp (map (fun vr => OInsert (fst vr) (snd vr)) l) /\
+    skip_inv T cmp s /\ sortedT T cmp (as_slice T s) /\ Permutation (as_slice T s) (map fst l).
+  Proof.
+    destruct Hcmp as [Ha Ht]. intros l. cbv zeta.
+    rewrite from_slice_run_lemma.
+    split; [reflexivity|]. split; [eapply skip_inv_reachable_lemma; eassumption|].
+    split; [eapply skip_sorted_reachable_lemma; eassumption|].
+    destruct (skip_outputs_eq_spec_lemma T cmp Ha Ht (map (fun vr => OInsert (fst vr) (snd vr)) l)) as [_ Hsl].
+    rewrite Hsl. clear Hsl. unfold ms_run. 
+    assert (Hg : forall l0, Permutation (fst (ms_run_from T cmp l0 (map (fun vr : T * nat => OInsert (fst vr) (snd vr)) l)))
+                                        (map fst l ++ l0)).
+    { induction l as [|[v r] l IH]; intros l0; cbn [map ms_run_from app]; [reflexivity|].
+      cbn [ms_step fst snd]. specialize (IH (ms_insert T cmp v l0)).
+      destruct (ms_run_from T cmp (ms_insert T cmp v l0) (map (fun vr : T * nat => OInsert (fst vr) (snd vr)) l)) as [l2 rs].
+      cbn [fst] in *. rewrite IH. rewrite (ms_insert_perm T cmp v l0). cbn [fst].
+      symmetry. apply Permutation_middle. }
+    rewrite (Hg []). rewrite app_nil_r. reflexivity.
+  Qed.
+
+  Lemma skip_traverse_tp : forall ops v,
+    let s := final T cmp ops in
+    let u := traverse T cmp (nodes s) v (level s) in
+    let c0 := upd u 0 in
+    length u = level s /\
+    (forall k n, nth_error (nodes s) k = Some n -> ltb T cmp v n = (k <? c0)) /\
+    (forall i nd, i < level s -> nth_error (nodes s) c0 = Some nd ->
+       (fwd T i (nodes s) (upd u i) = Some c0 <-> i < nht nd)).
+  Proof.
+    destruct Hcmp as [Ha Ht]. intros ops v. cbv zeta.
+    destruct (skip_traverse_lemma T cmp Ha Ht ops v) as (H1 & H2 & H3 & H4).
+    rewrite H2. auto.
+  Qed.
+End Closed.
+
+(* ---------- the comparator families of the correspondence check are total preorders ---------- *)
+Lemma cmp_asc_tp : cmp_total_preorder (Z * Z) cmp_asc.
+Proof. unfold cmp_total_preorder, cmp_asc. split; intros; lia. Qed.
+Lemma cmp_desc_tp : cmp_total_preorder (Z * Z) cmp_desc.
+Proof. unfold cmp_total_preorder, cmp_desc. split; intros; lia. Qed.
+Lemma cmp_mod3_tp : cmp_total_preorder (Z * Z) cmp_mod3.
+Proof. unfold cmp_total_preorder, cmp_mod3. split; intros; lia. Qed.
+Lemma cmp_half_tp : cmp_total_preorder (Z * Z) cmp_half.
+Proof. unfold cmp_total_preorder, cmp_half. split; intros; lia. Qed.
+
+Lemma random_level_range_lemma : forall r, 1 <= random_level r <= MaxLevel.
+Proof. intros r. unfold random_level, MaxLevel. lia. Qed.
+Lemma random_level_onto_lemma : forall h, 1 <= h <= MaxLevel -> exists r, random_level r = h.
+Proof. intros h Hh. exists (h - 1). unfold random_level, MaxLevel in *. lia. Qed.
+
+(* ---------- layer B, bounded: the pointer model and the heights model agree on every history
+   of at most 5 mutating operations over SkipModel.sweep_alphabet (9 Inserts: keys 0,1,2 with
+   0 and 1 comparing equal, towers 1,2,3; 3 DeleteElements), after every prefix: level, size,
+   all tower heights, all 32 chains, and the results of 13 Search/Get/Peek/Len/AsSlice probes;
+   the pointer model never panics nor runs out of fuel there.  248832 histories, by computation. *)
+Lemma ptr_sweep_5 : ptr_sweep 5 (p_empty _) empty = true.
+Proof. vm_cast_no_check (eq_refl true). Qed.
